@@ -4,7 +4,7 @@
 # then runs the given checks against it and records everything in /verif/seeded/<seed id>/.
 set -u
 SRC="$1"; ID="$2"; shift 2
-WT=/tmp/seedeval
+WT=/tmp/seedeval-$ID
 OUT=/verif/seeded/$ID
 mkdir -p "$OUT"
 if [ ! -d $WT ]; then git -C /repo worktree add -q --detach $WT HEAD; fi
